@@ -10,7 +10,11 @@ PROPERTY_ID = "C26"
 LEVEL = "exploration"
 RULE = (
     "Items are fresh counting disposables (one per add/assign command; 'plain' = bare DisposableBase, 'empty' = an empty "
-    "CompositeDisposable, i.e. a falsy object) that count every dispose() call. "
+    "CompositeDisposable, i.e. a falsy object; in the one-thread histories also 'reenter' / 'reenter-clear' = the item's "
+    "dispose() calls its container's dispose() / clear(), bounded depth, and 'raises' = the item's dispose() raises after "
+    "counting and the history goes on) that count every dispose() call. No item may ever be disposed twice; the model "
+    "follows re-entrant calls (an item disposed for the first time disposes/clears its container); once an item has raised "
+    "out of a container call only 'at most once' is judged. "
     "hist/hist-enum: command lists on one thread (composite: add/remove/contains/clear/len/dispose with constructor items and "
     "never-added items; serial/single/multi: assign/get/dispose), generated (1..20 commands) and exhaustively enumerated "
     "(all lists up to 4-5 commands over a small alphabet); an explicit model is stepped alongside and after EVERY command each "
@@ -37,18 +41,20 @@ ASSUMPTIONS = [
 ]
 
 _kind = st.sampled_from(disp.KINDS)
+_hkind = st.sampled_from(disp.HIST_KINDS)  # single-thread histories also use re-entering and raising items
+_hkind_c = st.sampled_from(disp.HIST_KINDS + ("reenter-clear",))
 _ref = st.integers(0, 7)
 
 
 def _hist_cmds(cls):
     if cls == "composite":
         c = st.one_of(
-            st.tuples(st.just("add"), _kind), st.tuples(st.just("add"), _kind), st.tuples(st.just("remove"), _ref),
+            st.tuples(st.just("add"), _hkind_c), st.tuples(st.just("add"), _hkind_c), st.tuples(st.just("remove"), _ref),
             st.tuples(st.just("remove"), _ref), st.tuples(st.just("contains"), _ref), st.tuples(st.just("clear")),
             st.tuples(st.just("len")), st.tuples(st.just("dispose")),
         )  # fmt: skip
     else:
-        c = st.one_of(st.tuples(st.just("assign"), _kind), st.tuples(st.just("assign"), _kind), st.tuples(st.just("get")), st.tuples(st.just("dispose")))
+        c = st.one_of(st.tuples(st.just("assign"), _hkind), st.tuples(st.just("assign"), _hkind), st.tuples(st.just("get")), st.tuples(st.just("dispose")))
     return st.lists(c.map(list), min_size=1, max_size=20)
 
 
@@ -56,7 +62,7 @@ _hist = st.sampled_from(["composite", "composite", "serial", "single", "multi"])
     lambda cls: st.fixed_dictionaries(
         {
             "cls": st.just(cls),
-            "init": st.lists(_kind, max_size=3) if cls == "composite" else st.just([]),
+            "init": st.lists(_hkind_c, max_size=3) if cls == "composite" else st.just([]),
             "ctor_list": st.booleans() if cls == "composite" else st.just(False),
             "foreign": st.lists(_kind, max_size=1),
             "cmds": _hist_cmds(cls),
@@ -75,6 +81,17 @@ def _hist_enum(tier):
     for init in ([], ["empty"]):
         for cmds in disp.sequences(comp, n):
             yield {"cls": "composite", "init": init, "ctor_list": False, "foreign": [], "cmds": cmds}
+    # items whose dispose() re-enters the container (dispose()/clear()) or raises after counting
+    assign_x = [("assign", "plain"), ("assign", "reenter"), ("assign", "raises"), ("dispose",)]
+    for cls in ("single", "serial", "multi"):
+        for cmds in disp.sequences(assign_x, n + 1):
+            if any(c[0] == "assign" and c[1] != "plain" for c in cmds):
+                yield {"cls": cls, "init": [], "ctor_list": False, "foreign": [], "cmds": cmds}
+    comp_x = [("add", "plain"), ("add", "reenter"), ("add", "reenter-clear"), ("add", "raises"), ("remove", 0), ("remove", 1), ("clear",), ("dispose",)]
+    for init in ([], ["reenter"], ["raises"]):
+        for cmds in disp.sequences(comp_x, n if init else n - 1):
+            if init or any(c[0] == "add" and c[1] != "plain" for c in cmds):
+                yield {"cls": "composite", "init": init, "ctor_list": False, "foreign": [], "cmds": cmds}
 
 
 _DET_ALPHA = {
